@@ -87,6 +87,22 @@ def hashesOf (j : Json) : Except String (List (List (Bytes × Bytes))) := do
 
 def handleC03 (op : String) (input impl : Json) : Except String Json := do
   match op with
+  | "inv-big" =>
+    -- size boundary: recorded row count = rows present, one index per block, ceil(n / blockSize) blocks
+    let n ← natFld input "n"
+    let bs := Facts.blockSize
+    let nb := (n + bs - 1) / bs
+    let mj := Json.mkObj [("rowsCount", jNat n), ("blocks", jNat nb), ("blockIndices", jNat nb)]
+    if resClass impl == "panic" then return reply mj false ["no-panic"]
+    if resClass impl != "ok" then return reply mj false ["unexpected-error"]
+    let v := fldD impl "val" Json.null
+    let g := fun (k : String) => (fldD v k (jNat 0)).getNat?.toOption.getD 0
+    let viol :=
+      (if g "rowsCount" == n && g "readBack" == n then [] else ["rowscount-equals-rows-present"]) ++
+      (if g "blocks" == nb then [] else ["block-sizes"]) ++
+      (if g "blockIndices" == g "blocks" then [] else ["one-index-per-block"]) ++
+      (if (fldD v "exactRowsInKeyOrder" (Json.bool false)).getBool?.toOption.getD false then [] else ["keys-strictly-ascending"])
+    return reply mj viol.isEmpty viol
   | "inv" =>
     if (input.getObjVal? "columns").toOption.isNone then
       return reply (Json.mkObj [("res", "err")]) true []
